@@ -256,6 +256,35 @@ def acquire_on_lookup(r, F):
     rels = {g.calls_to(r"RawCacheShard::<E, S, I>::release_(im)?mutable$")[0].term.callee.rsplit("::", 1)[-1] for g in F.descendants(dr) if g.calls_to(r"RawCacheShard::<E, S, I>::release_(im)?mutable$")}
     r.require(rels == {"release_immutable", "release_mutable"}, dr, "last drop releases through the matching operator", "Immutable -> release_immutable (read lock), Mutable -> release_mutable (write lock)",
               "RawCacheEntry::drop does not dispatch to both release operators: %s" % sorted(rels), ln=dr.lo)
+    # ... and on EVERY path: `last handle` is a fact about the record, whichever handle (lookup, insert, fetch) happens to be dropped last. From the
+    # refs==0 edge, every path that does not take the disk-only (phantom) hand-off reaches E::release(), and each operator arm runs its release closure.
+    decs = dr.calls_to(DEC)
+    relop = [b.idx for b in dr.calls_to(r"^foyer_memory::eviction::Eviction::release$")]
+    ph = dr.calls_to(r"Properties::phantom$")
+    if len(decs) != 1 or len(relop) != 1 or len(ph) != 1:
+        raise AnchorMissing("RawCacheEntry::drop: dec_refs / Eviction::release / Properties::phantom not found exactly once")
+    found = tables.find_cmp(dr, lambda fn, op: op.place is not None and any(bb == decs[0].idx for bb, _ in backslice(fn, op, "prov").calls), tables.role_const(0), "comparison of dec_refs() with 0")
+    ph_edges = []
+    for b in dr.blocks:
+        if b.cleanup or b.term.k != "switch" or b.term.discr.place is None:
+            continue
+        sl = backslice(dr, b.term.discr, "prov", extra_transparent=[r"Option::<T>::unwrap_or(_default)?$"])
+        if any(bb == ph[0].idx for bb, _ in sl.calls):
+            tt, ft = tables.bool_switch_targets(b)
+            ph_edges.append((b.idx, tt))
+    ok = bool(found) and bool(ph_edges)
+    for c, fl in found:
+        ok = ok and dr.must_pass(c.target("eq", fl), relop, avoid_edges=ph_edges)
+    r.require(ok, dr, "last drop of a resident record always reaches the release operator", "from refs==0, every non-phantom path runs E::release() (no further condition such as the handle's source)",
+              "RawCacheEntry::drop can skip the release operator although the last reference is gone (an extra condition / early return on the refs==0 path): the pin taken by a lookup is released by "
+              "whichever handle drops last — under LRU the record then stays in the pin list with zero references and can never be evicted", ln=dr.lo)
+    for (sb, pl, tm, other) in tables.discr_switches(dr):
+        if {"Immutable", "Mutable"} <= set(tm):
+            for v, meth in (("Immutable", "release_immutable"), ("Mutable", "release_mutable")):
+                cl = [g for g in F.descendants(dr) if g.calls_to(r"RawCacheShard::<E, S, I>::%s$" % meth)]
+                sites = [b.idx for b in dr.calls() if cl and any(a.place is not None and ("raw.rs:%d:" % cl[0].lo) in (dr.local_ty(a.place.local) or "") for a in b.term.args)]
+                r.require(bool(sites) and dr.must_pass(tm[v], sites) and cl[0].must_pass(0, [b.idx for b in cl[0].calls_to(r"RawCacheShard::<E, S, I>::%s$" % meth)]), dr,
+                          "Op::%s arm runs %s unconditionally" % (v, meth), "the arm applies the release closure on every path", "the Op::%s arm of RawCacheEntry::drop does not always run %s" % (v, meth), ln=dr.lo)
 
 
 def outdated(r, F):
@@ -343,7 +372,7 @@ def immutable(r, F):
 
 def run(chk, F):
     chk.run_rule("C18.refs-paired", "every reference-count increment ends in a handle whose drop decrements it; release only at zero", 14, refs_paired, F)
-    chk.run_rule("C18.acquire-on-lookup", "every lookup hit runs the acquire operator unconditionally; the last drop runs the matching release operator", 3, acquire_on_lookup, F)
+    chk.run_rule("C18.acquire-on-lookup", "every lookup hit runs the acquire operator unconditionally; the last drop runs the matching release operator on every non-phantom path", 6, acquire_on_lookup, F)
     chk.run_rule("C18.lru-pin", "LRU: pop never reads the pin list; acquire pins, release unpins to the tail, clear drains it", 5, lru_pin, F)
     chk.run_rule("C18.outdated", "is_outdated == !in-indexer flag, and only the Sentry index wrapper writes the flag (true on insert, false on leave)", 6, outdated, F)
     chk.run_rule("C18.immutable", "no code path assigns to or mutably borrows Record.data; accessors return shared borrows", 4, immutable, F)
